@@ -87,7 +87,7 @@ class Jet(object):
             return out
         if isinstance(r, (int, np.integer)):
             return Jet.const(1.0, self.N) / (self ** (-int(r)))
-        return self._pow_real(float(r))
+        return self._pow_real(r if isinstance(self.c[0], (np.longdouble, Err)) else float(r))
 
     def __rpow__(self, b):
         return (self * math.log(b)).exp()
@@ -168,7 +168,10 @@ class Jet(object):
         return self._integrate(self._d() / (1.0 - self * self).sqrt(), _asin(self.c[0]))
 
     def arccos(self):
-        return (math.pi / 2) - self.arcsin()
+        r = -self.arcsin()
+        r.c[0] = np.arccos(self.c[0]) if isinstance(self.c[0], np.longdouble) else (math.pi / 2) - self.arcsin().c[0]
+        # (for Err coefficients the subtraction above records its own rounding)
+        return r
 
     def arcsinh(self):
         return self._integrate(self._d() / (1.0 + self * self).sqrt(), _asinh(self.c[0]))
@@ -222,8 +225,74 @@ def _j(a, b):
     return b._lift(a), b
 
 
-def _cx(f_real, f_cx):
+class Err(object):
+    """a double together with a first-order running bound of the rounding error of the computation that produced it (Higham,
+    Accuracy and Stability, 3.3): |computed - exact| <~ eps * m.  Used as coefficient type of a Jet it bounds the rounding noise of the
+    double-precision evaluation of f and of its derivatives at x (see derivatives_conditioned)."""
+    __slots__ = ('v', 'm')
+    __array_priority__ = 2000
+
+    def __init__(self, v, m=0.0):
+        self.v, self.m = float(v), float(m)
+
+    @staticmethod
+    def lift(o):
+        return o if isinstance(o, Err) else Err(o, 0.0)
+
+    def __add__(self, o):
+        o = Err.lift(o)
+        z = self.v + o.v
+        return Err(z, self.m + o.m + abs(z))
+    __radd__ = __add__
+
+    def __neg__(self):
+        return Err(-self.v, self.m)
+
+    def __sub__(self, o):
+        return self + (-Err.lift(o))
+
+    def __rsub__(self, o):
+        return Err.lift(o) - self
+
+    def __mul__(self, o):
+        o = Err.lift(o)
+        z = self.v * o.v
+        return Err(z, abs(o.v) * self.m + abs(self.v) * o.m + abs(z))
+    __rmul__ = __mul__
+
+    def __truediv__(self, o):
+        o = Err.lift(o)
+        z = self.v / o.v
+        return Err(z, self.m / abs(o.v) + abs(self.v) * o.m / (o.v * o.v) + abs(z))
+
+    def __rtruediv__(self, o):
+        return Err.lift(o) / self
+
+    def __pow__(self, r):
+        r = float(r)
+        z = self.v ** r
+        return Err(z, abs(r * self.v ** (r - 1.0)) * self.m + abs(z))
+
+    def __float__(self):
+        return self.v
+
+    def apply(self, g, dg):
+        z = g(self.v)
+        return Err(z, abs(dg(self.v)) * self.m + abs(z))
+
+
+_ERR_DERIV = {'exp': math.exp, 'log': lambda a: 1.0 / a, 'sin': math.cos, 'cos': math.sin, 'sinh': math.cosh, 'cosh': math.sinh,
+              'atan': lambda a: 1.0 / (1.0 + a * a), 'asin': lambda a: 1.0 / math.sqrt(1.0 - a * a),
+              'asinh': lambda a: 1.0 / math.sqrt(1.0 + a * a), 'acosh': lambda a: 1.0 / math.sqrt(a * a - 1.0),
+              'atanh': lambda a: 1.0 / (1.0 - a * a), 'expm1': math.exp, 'log1p': lambda a: 1.0 / (1.0 + a)}
+
+
+def _cx(f_real, f_cx, f_np=None):
     def g(x):
+        if isinstance(x, Err):
+            return x.apply(f_real, _ERR_DERIV[f_real.__name__])
+        if isinstance(x, np.longdouble) and f_np is not None:
+            return f_np(x)            # extended precision (x87 80-bit: 64-bit mantissa), see derivatives_extended
         if isinstance(x, complex):
             return complex(f_cx(x))
         return f_real(x)
@@ -231,19 +300,19 @@ def _cx(f_real, f_cx):
 
 
 import cmath
-_exp = _cx(math.exp, cmath.exp)
-_log = _cx(math.log, cmath.log)
-_sin = _cx(math.sin, cmath.sin)
-_cos = _cx(math.cos, cmath.cos)
-_sinh = _cx(math.sinh, cmath.sinh)
-_cosh = _cx(math.cosh, cmath.cosh)
-_atan = _cx(math.atan, cmath.atan)
-_asin = _cx(math.asin, cmath.asin)
-_asinh = _cx(math.asinh, cmath.asinh)
-_acosh = _cx(math.acosh, cmath.acosh)
-_atanh = _cx(math.atanh, cmath.atanh)
-_expm1 = _cx(math.expm1, lambda z: np.expm1(z))
-_log1p = _cx(math.log1p, lambda z: np.log1p(z))
+_exp = _cx(math.exp, cmath.exp, np.exp)
+_log = _cx(math.log, cmath.log, np.log)
+_sin = _cx(math.sin, cmath.sin, np.sin)
+_cos = _cx(math.cos, cmath.cos, np.cos)
+_sinh = _cx(math.sinh, cmath.sinh, np.sinh)
+_cosh = _cx(math.cosh, cmath.cosh, np.cosh)
+_atan = _cx(math.atan, cmath.atan, np.arctan)
+_asin = _cx(math.asin, cmath.asin, np.arcsin)
+_asinh = _cx(math.asinh, cmath.asinh, np.arcsinh)
+_acosh = _cx(math.acosh, cmath.acosh, np.arccosh)
+_atanh = _cx(math.atanh, cmath.atanh, np.arctanh)
+_expm1 = _cx(math.expm1, lambda z: np.expm1(z), np.expm1)
+_log1p = _cx(math.log1p, lambda z: np.log1p(z), np.log1p)
 
 
 def derivatives(f, x0, nmax):
@@ -252,3 +321,39 @@ def derivatives(f, x0, nmax):
     if not isinstance(j, Jet):
         j = Jet.const(j, max(nmax, 1))
     return [j.deriv(k) for k in range(nmax + 1)]
+
+
+def derivatives_extended(f, x0, nmax):
+    """the same recurrences in extended precision (numpy.longdouble: 64-bit mantissa on x86-64, 11 bits more than a double), rounded
+    to doubles at the end, together with the rounding noise of the double-precision evaluation:
+        noise[k] = |d_double[k] - d_extended[k]|
+    For an expression with internal cancellation (tanh(x) - cosh(tiny) at x = 90, sinh(26)/cosh(26) differentiated twice) the
+    double-precision value of f and of its derivatives is only defined up to this noise, whatever differentiates it."""
+    if np.finfo(np.longdouble).eps >= 2.0 ** -52:
+        d = derivatives(f, x0, nmax)           # no extended type on this platform
+        return d, [0.0] * len(d)
+    n = max(nmax, 1)
+    one, zero = np.longdouble(1), np.longdouble(0)
+    with np.errstate(all='ignore'):
+        j = f(Jet([np.longdouble(x0), one] + [zero] * (n - 1)))
+    if not isinstance(j, Jet):
+        j = Jet.const(np.longdouble(j), n)
+    dl = [j.deriv(k) for k in range(nmax + 1)]
+    d64 = derivatives(f, x0, nmax)
+    noise = [abs(float(np.longdouble(a) - b)) if (math.isfinite(a) and np.isfinite(b)) else float('inf') for a, b in zip(d64, dl)]
+    return [float(v) for v in dl], noise
+
+
+def derivatives_conditioned(f, x0, nmax):
+    """running rounding-error bounds (in absolute terms, already multiplied by eps = 2^-52) of the double-precision evaluation of
+    [f(x0), f'(x0), ..]: the magnitude below which the value of the k-th derivative *of this expression in double arithmetic* is
+    not defined (internal cancellation: tanh(x) - cosh(tiny); saturation: the second derivative of sinh(u)/cosh(u) at u = 26)."""
+    n = max(nmax, 1)
+    j = f(Jet([Err(x0, 0.0), Err(1.0, 0.0)] + [Err(0.0, 0.0) for _ in range(n - 1)]))
+    if not isinstance(j, Jet):
+        return [abs(float(j)) * 2.0 ** -52] + [0.0] * nmax
+    out = []
+    for k in range(nmax + 1):
+        c = Err.lift(j.c[k])
+        out.append(math.factorial(k) * c.m * 2.0 ** -52)
+    return out
